@@ -15,12 +15,14 @@ EXTENDS Naturals, Sequences, FiniteSets, TLC, Json
 
 CONSTANTS NFiles,      \* files emitted by the run, in emission order
           Protocol,    \* "backup" | "plain"
-          FaultOps     \* TRUE: explore crashes and failing operations
+          FaultOps,    \* TRUE: explore crashes and failing operations
+          Pre          \* possible pre-existing contents of the .tmp / .bk siblings
 
-Content == {"absent", "orig", "new", "partial"}
+Content == {"absent", "orig", "new", "partial", "stale"}
 Files   == 1 .. NFiles
 
 VARIABLES changed,   \* [Files -> BOOLEAN]  formatted text differs from disk
+          disk0,     \* the disk before the run (siblings may be left over from earlier runs)
           disk,      \* [Files -> [f : Content, tmp : Content, bk : Content]]
           cur,       \* file being emitted; NFiles + 1 when all are done
           pc,        \* next step of the protocol for file cur
@@ -28,11 +30,12 @@ VARIABLES changed,   \* [Files -> BOOLEAN]  formatted text differs from disk
           ops,       \* history: sequence of completed file-system calls
           stop       \* history: what ended the run ("", "crash", or the failed call)
 
-vars == <<changed, disk, cur, pc, status, ops, stop>>
+vars == <<changed, disk0, disk, cur, pc, status, ops, stop>>
 
 Init ==
   /\ changed \in [Files -> BOOLEAN]
-  /\ disk = [i \in Files |-> [f |-> "orig", tmp |-> "absent", bk |-> "absent"]]
+  /\ disk0 \in [Files -> {[f |-> "orig", tmp |-> t, bk |-> b] : t \in Pre, b \in Pre}]
+  /\ disk = disk0
   /\ cur = 1
   /\ pc = "decide"
   /\ status = "running"
@@ -55,7 +58,7 @@ Decide ==
        THEN /\ pc' = IF Protocol = "backup" THEN "open_tmp" ELSE "open_f"
             /\ UNCHANGED <<cur, status>>
        ELSE NextFile
-  /\ UNCHANGED <<changed, disk, ops, stop>>
+  /\ UNCHANGED <<changed, disk0, disk, ops, stop>>
 
 Op(name) == ops' = Append(ops, <<cur, name>>)
 
@@ -63,50 +66,50 @@ Op(name) == ops' = Append(ops, <<cur, name>>)
 OpenTmp ==
   /\ Running /\ pc = "open_tmp"
   /\ Set(cur, "tmp", "partial") /\ Op("open_tmp")
-  /\ pc' = "write_tmp" /\ UNCHANGED <<changed, cur, status, stop>>
+  /\ pc' = "write_tmp" /\ UNCHANGED <<changed, disk0, cur, status, stop>>
 
 WriteTmp ==
   /\ Running /\ pc = "write_tmp"
   /\ Set(cur, "tmp", "new") /\ Op("write_tmp")
-  /\ pc' = "rename_bk" /\ UNCHANGED <<changed, cur, status, stop>>
+  /\ pc' = "rename_bk" /\ UNCHANGED <<changed, disk0, cur, status, stop>>
 
 (* fs::rename(filename, bk_name) *)
 RenameBk ==
   /\ Running /\ pc = "rename_bk"
   /\ disk' = [disk EXCEPT ![cur].bk = disk[cur].f, ![cur].f = "absent"]
   /\ Op("rename_bk")
-  /\ pc' = "rename_tmp" /\ UNCHANGED <<changed, cur, status, stop>>
+  /\ pc' = "rename_tmp" /\ UNCHANGED <<changed, disk0, cur, status, stop>>
 
 (* fs::rename(tmp_name, filename) *)
 RenameTmp ==
   /\ Running /\ pc = "rename_tmp"
   /\ disk' = [disk EXCEPT ![cur].f = disk[cur].tmp, ![cur].tmp = "absent"]
   /\ Op("rename_tmp")
-  /\ NextFile /\ UNCHANGED <<changed, stop>>
+  /\ NextFile /\ UNCHANGED <<changed, disk0, stop>>
 
 (* plain FilesEmitter: fs::write(filename, ..) = open(O_TRUNC) ; write ; close *)
 OpenF ==
   /\ Running /\ pc = "open_f"
   /\ Set(cur, "f", "partial") /\ Op("open_f")
-  /\ pc' = "write_f" /\ UNCHANGED <<changed, cur, status, stop>>
+  /\ pc' = "write_f" /\ UNCHANGED <<changed, disk0, cur, status, stop>>
 
 WriteF ==
   /\ Running /\ pc = "write_f"
   /\ Set(cur, "f", "new") /\ Op("write_f")
-  /\ NextFile /\ UNCHANGED <<changed, stop>>
+  /\ NextFile /\ UNCHANGED <<changed, disk0, stop>>
 
 (* The process dies between two file-system calls (or before the first).   *)
 Crash ==
   /\ FaultOps /\ Running /\ pc # "decide"
   /\ status' = "crashed" /\ stop' = "crash"
-  /\ UNCHANGED <<changed, disk, cur, pc, ops>>
+  /\ UNCHANGED <<changed, disk0, disk, cur, pc, ops>>
 
 (* The call about to be made returns an error and has no effect; the error  *)
 (* propagates (`?`) and ends the emission of this crate root.               *)
 Fail ==
   /\ FaultOps /\ Running /\ pc # "decide"
   /\ status' = "failed" /\ stop' = pc
-  /\ UNCHANGED <<changed, disk, cur, pc, ops>>
+  /\ UNCHANGED <<changed, disk0, disk, cur, pc, ops>>
 
 Next == Decide \/ OpenTmp \/ WriteTmp \/ RenameBk \/ RenameTmp
         \/ OpenF \/ WriteF \/ Crash \/ Fail
@@ -127,13 +130,14 @@ NeverPartialTarget  == Protocol = "backup" => \A i \in Files : NeverPartial(disk
 (* C20 clause 3: after a successful run.                                    *)
 PostOne(ch, d) ==
   IF ch THEN d.f = "new" /\ (Protocol = "backup" => d.bk = "orig" /\ d.tmp = "absent")
-        ELSE d = [f |-> "orig", tmp |-> "absent", bk |-> "absent"]
-PostState == status = "done" => \A i \in Files : PostOne(changed[i], disk[i])
+        ELSE TRUE
+PostState == status = "done" => \A i \in Files :
+                 /\ PostOne(changed[i], disk[i])
+                 /\ ~changed[i] => disk[i] = disk0[i]
 
 (* Files that were not reached by the protocol are untouched.               *)
 LaterFilesUntouched ==
-  \A i \in Files : i > cur =>
-      disk[i] = [f |-> "orig", tmp |-> "absent", bk |-> "absent"]
+  \A i \in Files : i > cur => disk[i] = disk0[i]
 
 (* plain protocol, no faults: only ever replaced by the complete text.      *)
 PlainComplete ==
@@ -150,10 +154,10 @@ Terminates == <>(status # "running")
 (* Scenario generation: one line per terminal state.                        *)
 Scenario ==
   [tag |-> "REPLAY", protocol |-> Protocol, nfiles |-> NFiles,
-   changed |-> changed, stop |-> stop, nops |-> Len(ops),
+   changed |-> changed, disk0 |-> disk0, stop |-> stop, nops |-> Len(ops),
    ops |-> ops, status |-> status, disk |-> disk]
 
 Emit == status # "running" => PrintT(ToJson(Scenario))
 
-View == <<changed, disk, cur, pc, status, stop>>
+View == <<changed, disk0, disk, cur, pc, status, stop>>
 =============================================================================
